@@ -127,15 +127,34 @@ theorem content_type_wf (text : List Char) : scan .norm (contentTypeValue (encod
 /-! ## line lengths of text values -/
 
 /-- **A text value made of words is folded within the limits, however long.** For every list of words — visible ASCII,
-    each of 1 to 75 octets, none of the shape `=?…?=` — separated by single spaces, the first of which fits after the field
+    each of 1 to 77 octets, none of the shape `=?…?=` — separated by single spaces, the first of which fits after the field
     name, every line of the field that `HeaderValue::new` writes (name, colon and space included) is at most 78 octets
     long. This is the 78-octet clause of the property for `Subject`-like values on the class where no recorded folding
     finding applies (no HTAB, no runs of blanks, no trailing blank, nothing that needs an encoded-word); outside it the
     bound is checked on the real output (and has the recorded findings). `Proofs/TextFold.lean`. -/
-theorem text_value_folded (nameLen : Nat) (ts : List Bytes) (hne : ts ≠ []) (ht : ∀ t ∈ ts, TextFold.WordOk t)
+theorem text_value_folded (nameLen : Nat) (ts : List Bytes) (hne : ts ≠ []) (ht : ∀ t ∈ ts, TextFold.WordOkL 78 t)
     (hfirst : ∀ t, ts.head? = some t → nameLen + 2 + t.length ≤ 78) :
     HeaderReader.linesOkGo true 78 (nameLen + 2) (encodeValue opts nameLen (TextFold.joinSp ts) ++ [13, 10]) = true :=
   TextFold.text_value_lines nameLen ts hne ht hfirst
+
+/-- **… and within 998 octets when the words are long**: the same for words of up to 900 octets under any accepted field
+    name (at most 76 octets) — "no line exceeds 998 octets when every white-space-free run is shorter than 900", on the
+    same class of values; more generally, for every limit `lim ≥ 78`, words shorter than `lim` give lines within `lim`
+    (`TextFold.text_value_lines_lim`): a line longer than 78 octets holds one word that is itself that long. -/
+theorem text_value_within_998 (nameLen : Nat) (hn : nameLen ≤ 76) (ts : List Bytes) (hne : ts ≠ [])
+    (ht : ∀ t ∈ ts, TextFold.WordOkL 901 t) :
+    HeaderReader.linesOkGo true 998 (nameLen + 2) (encodeValue opts nameLen (TextFold.joinSp ts) ++ [13, 10]) = true := by
+  apply TextFold.text_value_lines_lim 998 (by omega) nameLen ts hne
+  · intro t h
+    have := ht t h
+    exact ⟨this.vis, this.ne, by have := this.len; omega, this.plainShape⟩
+  · intro t h
+    have hm : t ∈ ts := by
+      cases ts with
+      | nil => simp at h
+      | cons a as => simp at h; subst h; simp
+    have := (ht t hm).len
+    omega
 
 /-- non-vacuity: forty words of nine octets under `Subject` — five lines, none over 78 octets; and the decidable part of
     `WordOk` on one of them -/
